@@ -97,6 +97,25 @@ def pvLe (a b : PV) : Bool := decide (PV.le a b)
 /-- strictly below (`phi < threshold`, what `is_available` must report) -/
 def pvLt (a b : PV) : Bool := !pvLe b a
 
+/-! clause 5 — real failures are detected at the detector level.  Once a heartbeat has been recorded
+and the interval window is not empty, the suspicion level is not stuck at its "no data" value: after
+a silence that is long for *every* window the history can have produced, it has reached the
+threshold.  `m` bounds every interval that was ever recorded (the bootstrap interval and every
+positive gap between consecutive heartbeats), so mean ≤ m and max(std, min_std) ≤ max(m, min_std);
+a silence of `m + 39·max(m, min_std)` puts the standardised distance at 39 or more, where the normal
+tail is below 1e-300 — phi above 300 in exact arithmetic, `+∞` in the code's floats. -/
+
+/-- the silence after which any window bounded by `m` gives phi above 300 -/
+def silenceBound (m minStd : Nat) : Nat := m + 39 * max m minStd
+
+/-- 300.0 as a `PV` (bit pattern): thresholds up to here are covered by `silenceBound` -/
+def phiCeil : PV := .fin 0x4072C00000000000
+
+/-- clause 5 on one sample `p = phi(t)`: `last` = time of the last recorded heartbeat (whatever its
+    value — the epoch `0` is a time like any other), `haveIv` = the window is not empty -/
+def detectedSample (haveIv : Bool) (m minStd last t : Nat) (thr p : PV) : Bool :=
+  !(haveIv && pvLe thr phiCeil && decide (last + silenceBound m minStd ≤ t)) || pvLe thr p
+
 /-- clause 4: a list of samples is non-decreasing w.r.t. a decidable order -/
 def nondecreasing {α} (le : α → α → Bool) : List α → Bool
   | [] => true
